@@ -174,7 +174,7 @@ func (es *ExtSwitchData) unmarshal(r io.Reader) error {
 		return err
 	}
 
-	err = read(r, &es.SrcPriority)
+	err = read(r, &es.DstPriority)
 
 	return err
 }
